@@ -305,6 +305,7 @@ static const char* stname(ZixStatus st)
   case ZIX_STATUS_NOT_FOUND: return "NOT_FOUND";
   case ZIX_STATUS_EXISTS: return "EXISTS";
   case ZIX_STATUS_REACHED_END: return "REACHED_END";
+  case ZIX_STATUS_OVERFLOW: return "OVERFLOW";
   default: return "OTHER";
   }
 }
